@@ -107,14 +107,37 @@ def run(ctx):
     st = [n for n in f.all_nodes() if n.k == 'BinaryOperator' and n.op == '=' and n.children[0].strip().k == 'ArraySubscriptExpr' and
           is_buf(n.children[0].strip().children[0])]
     ctx.need(len(st) == 1, 'byte store into msg_buf not found')
-    loop = [n for n in f.all_nodes() if n.k == 'DoStmt']
-    ctx.need(len(loop) == 1, 'preamble do-while not found')
-    conj = q.formula_atoms(q.bool_atoms(loop[0].child('cond')))
+    loop = [n for n in st[0].ancestors() if n.k in ('DoStmt', 'ForStmt', 'WhileStmt')]
+    ctx.need(len(loop) >= 1, 'byte-wise preamble loop not found')
     idx = st[0].children[0].strip().children[1].strip(casts=True)
     ivar = idx.children[0].strip(casts=True) if idx.k == 'UnaryOperator' else idx
-    bounded = any(a.strip(casts=True).k == 'BinaryOperator' and a.strip(casts=True).op == '<' and q.same_expr(a.strip(casts=True).children[0], ivar) and
-                  a.strip(casts=True).children[1].strip(casts=True).value == cap for a in conj) and q.bool_atoms(loop[0].child('cond'))[0] == 'and'
-    ctx.check(bounded, 'R15.1', R + 'read#preamble-loop.bound', st[0].loc, 'the byte-wise preamble loop continues only while the index is < %d' % cap)
+    # whatever the loop is written as: every way from the store back to the store passes a decision that leaves only index < cap
+    # (`idx < cap` taken true, `idx >= cap` taken false, or the mirrored forms)
+    cfg = f.cfg
+
+    def uncertified(v, w, lab):
+        if lab is None or not isinstance(lab[1], bool):
+            return True
+        a, pol = q.polar(cfg.cond_node(lab[0]), lab[1])
+        s_ = a.strip(casts=True)
+        if s_.k != 'BinaryOperator' or s_.op not in ('<', '>=', '>', '<='):
+            return True
+        l_, r_, op_ = s_.children[0], s_.children[1], s_.op
+        if q.same_expr(r_, ivar):
+            l_, r_, op_ = r_, l_, {'<': '>', '>': '<', '<=': '>=', '>=': '<='}[op_]
+        if not q.same_expr(l_, ivar):
+            return True
+        c_ = r_.strip(casts=True).value
+        if c_ is None:
+            return True
+        if (op_ == '<' and pol and c_ <= cap) or (op_ == '>=' and not pol and c_ <= cap) or (op_ == '<=' and pol and c_ <= cap - 1) or (op_ == '>' and not pol and c_ <= cap - 1):
+            return False
+        return True
+    sv = cfg.vertex_of(st[0])
+    back = cfg.reach_from(sv, edge_ok=uncertified)
+    bounded = sv not in back
+    ctx.check(bounded, 'R15.1', R + 'read#preamble-loop.bound', st[0].loc, 'the byte-wise preamble loop repeats the store only after a decision that leaves the index < %d' % cap,
+              'the byte-wise store `%s` can be repeated without any test that keeps `%s` below the %d-byte buffer' % (st[0].text(), ivar.text(), cap))
     sr = prog.fn1(R + 'sockRead')
     ctx.saw(sr)
     lw = [n for n in sr.all_nodes() if n.k == 'WhileStmt']
